@@ -307,6 +307,50 @@ func ruleRegexDotallNested(r *Run) {
 		})
 	}
 	r.Count("patterns_applied_to_captures", n) // no minimum: splitting with strings.Index instead of a second pattern is just as good
+	// a pattern that spans a whole block — it contains the literal of an opening directive "{{#" and
+	// of a closing directive "{{/" with a repeated `.` in between — is applied to template text,
+	// where blocks span lines: without (?s) it silently fails to match every multi-line block
+	nb := 0
+	seenPat := map[string]bool{}
+	for _, fn := range p.ModFuncs() {
+		if fn.Pkg == nil || fn.Pkg.Pkg.Path() != pkgDoc {
+			continue
+		}
+		allInstrs(fn, func(in ssa.Instruction) {
+			c, ok := in.(*ssa.Call)
+			if !ok || (calleeName(c) != "regexp.MustCompile" && calleeName(c) != "regexp.Compile") || len(c.Call.Args) != 1 {
+				return
+			}
+			pat, ok := constString(c.Call.Args[0])
+			if !ok || seenPat[pat] {
+				return
+			}
+			re, err := syntax.Parse(pat, syntax.Perl)
+			if err != nil {
+				return
+			}
+			lits := ""
+			var walk func(x *syntax.Regexp)
+			walk = func(x *syntax.Regexp) {
+				if x.Op == syntax.OpLiteral {
+					lits += string(x.Rune) + "\x00"
+				}
+				for _, s2 := range x.Sub {
+					walk(s2)
+				}
+			}
+			walk(re)
+			if !strings.Contains(lits, "{{#") || !strings.Contains(lits, "{{/") {
+				return
+			}
+			seenPat[pat] = true
+			nb++
+			bad := hasRepeatedNoNLDot(re)
+			r.Check("regex-dotall-nested", "block-span:"+pat, c.Pos(), !bad,
+				fmt.Sprintf("the pattern `%s` spans a block from its opening to its closing directive: %s", pat, map[bool]string{true: "its `.` matches line breaks ((?s)) or it uses no `.` repetition", false: "its repeated `.` does not match a line break (no (?s)) — a block that spans several lines is not matched at all, so whatever this pattern is meant to find or mask in it is missed"}[!bad]))
+		})
+	}
+	r.Count("block_spanning_patterns", nb)
 }
 
 func ruleRegexLazy(r *Run) {
